@@ -144,7 +144,7 @@ pub fn check_c07(l: &Ledger) -> Vec<Violation> {
     let Mech::ShortTerm(cfg_alg) = l.cfg.mech.clone() else {
         return out;
     };
-    let key = l.cfg.password.as_bytes().to_vec();
+    let key = l.cfg.pw().into_bytes();
     let rel = l.cfg.is_reliable();
     let tname = transport_name(l);
     let mut alg: Option<Alg> = cfg_alg;
@@ -257,6 +257,18 @@ pub fn check_c07(l: &Ledger) -> Vec<Violation> {
                 }
                 // response
                 let Some(tx) = l.txs.iter().find(|t| t.id == id && t.gen == st.gen && t.awaiting_before(st.idx)) else {
+                    // "ends the transaction": once a response failed authentication on reliable transport (or the
+                    // request failed as protection-violated at its deadline) nothing more may be delivered for it
+                    if let Some(t) = l.txs.iter().rev().find(|t| t.id == id && t.gen == st.gen) {
+                        if matches!(t.finals.first(), Some((_, _, Outcome::Failed(Why::ProtectionViolated)))) && (delivered(st, &id, 2) || !st.events.is_empty()) {
+                            out.push(v(
+                                "C07",
+                                format!("C07/response-accepted-after-protection-violated({})", tname),
+                                st.idx,
+                                format!("step {}: tx#{} had ended with ProtectionViolated, yet a later response with its id produced {:?} {:?}", st.idx, t.k, st.result, st.events),
+                            ));
+                        }
+                    }
                     // unknown or finished id: C05's business. If the client nevertheless delivered it, follow what
                     // it learned from it so that this defect is not reported a second time under C07 keys.
                     if delivered(st, &id, 2) && alg.is_none() {
@@ -582,7 +594,7 @@ pub fn check_c13(l: &Ledger) -> Vec<Violation> {
         }
         let key: Option<Vec<u8>> = match l.cfg.mech {
             Mech::None => Some(b"app-key".to_vec()),
-            Mech::ShortTerm(_) => Some(l.cfg.password.as_bytes().to_vec()),
+            Mech::ShortTerm(_) => Some(l.cfg.pw().into_bytes()),
             Mech::LongTerm => lt_keys.key_for_request(st.idx, &p, &l.cfg),
         };
         for (t, name) in [(wire::A_MI, "MESSAGE-INTEGRITY"), (wire::A_MI256, "MESSAGE-INTEGRITY-SHA256")] {
@@ -659,7 +671,7 @@ impl LtCtx {
             Some(a) => vec![a],
             None => self.supported_offered(),
         };
-        algs.iter().map(|a| wire::long_term_key(*a, &cfg.user, &self.realm, &cfg.password)).collect()
+        algs.iter().map(|a| wire::long_term_key(*a, &cfg.user, &self.realm, &cfg.pw())).collect()
     }
 }
 
@@ -702,7 +714,7 @@ impl LtTrack {
                 }
             }),
         };
-        Some(wire::long_term_key(alg, &cfg.user, &ctx.realm, &cfg.password))
+        Some(wire::long_term_key(alg, &cfg.user, &ctx.realm, &cfg.pw()))
     }
 }
 
@@ -870,7 +882,7 @@ pub fn strict_server_accepts(b: &[u8], p: &Parsed, ctx: &LtCtx, cfg: &Cfg) -> Re
     if (want_kind == wire::A_MI256 && has_mi) || (want_kind == wire::A_MI && has_sha) {
         return Err("integrity-kind");
     }
-    let key = wire::long_term_key(key_alg, &cfg.user, &ctx.realm, &cfg.password);
+    let key = wire::long_term_key(key_alg, &cfg.user, &ctx.realm, &cfg.pw());
     if wire::verify_integrity(b, p, want_kind, &key) != Verdict::Good {
         if ctx.algs_raw.is_some() && pa.is_none() && pas.is_none() {
             return Err("no-password-algorithm");
@@ -892,7 +904,9 @@ pub fn check_c08(l: &Ledger) -> Vec<Violation> {
     let rel = l.cfg.is_reliable();
     let tname = transport_name(l);
     let track = lt_track(l);
-    let pw = l.cfg.password.as_bytes();
+    let pw_prepared = l.cfg.pw();
+    let pw = pw_prepared.as_bytes();
+    let pw_raw = l.cfg.password.as_bytes();
     for st in &l.steps {
         let (ctx, state) = track.at(st.idx);
         match &st.call {
@@ -912,7 +926,7 @@ pub fn check_c08(l: &Ledger) -> Vec<Violation> {
                 }
                 for e in &st.events {
                     let Ev::Output(b) = e else { continue };
-                    if pw.len() >= 6 && contains_sub(b, pw) {
+                    if (pw.len() >= 6 && contains_sub(b, pw)) || (pw_raw.len() >= 6 && contains_sub(b, pw_raw)) {
                         out.push(v("C08", "C08/password-on-the-wire".into(), st.idx, format!("step {}: the emitted packet contains the password bytes", st.idx)));
                     }
                     let Ok(p) = wire::parse(b) else { continue };
